@@ -611,7 +611,15 @@ func c20DirectedMore() []struct {
 		cfg int
 		ops []string
 	}
-	return []d{{0, window}, {1, window}, {2, window}, {6, chunks}}
+	// copies between buckets: the destination bucket's entry is the one that has to go
+	cross := []string{
+		"op mkb b0", "op mkb b1", "op put b0 k0 " + h("in-b0") + plain, "op put b1 k0 " + h("in-b1-before") + plain,
+		rd("get", "b1", "k0"), rd("get", "b0", "k0"), rd("head", "b1", "k0"),
+		"op cp b0 k0 b1 k0 svid=~ mdir=C tdir=C ct=~ md=~ tags=~ cls=~", rd("get", "b1", "k0"), rd("head", "b1", "k0"), rd("get", "b0", "k0"),
+		"op put b0 k1 " + h("other") + plain, rd("get", "b0", "k1"),
+		"op cp b1 k0 b0 k1 svid=~ mdir=C tdir=C ct=~ md=~ tags=~ cls=~ win=1", rd("get", "b0", "k1"), rd("head", "b0", "k1"), rd("get", "b1", "k1"),
+	}
+	return []d{{0, window}, {1, window}, {2, window}, {6, chunks}, {0, cross}, {1, cross}}
 }
 
 func runC20Seq(f *verifx.Flags, out *verifx.Out, k int, seed uint64, directed []string, cfg c20Cfg, mode string, nops int) {
